@@ -392,12 +392,14 @@ class Scan(Generic[Carry, Y], GenerativeFunction[tuple[Carry, Y]]):
         # We don't actually know if the index which was updated was the last one.
         # Therefore, we need to provide a where selection
         # between the carry from index, and the next slice --
+        # -- if it was, the final carry is the one this iteration produced; otherwise
+        # the iterations after idx + 1 are unchanged (asserted above), and so is the
+        # final carry.
         carry_out = Diff.tree_primal(carry_retdiff)
-        carry_out_ = Diff.tree_primal(retdiff[0])
         carried_out = jtu.tree_map(
-            lambda v, v_: jnp.where(idx < max_length, v_, v),
+            lambda last, rest: jnp.where(idx + 1 < max_length, rest, last),
             carry_out,
-            carry_out_,
+            old_carried_out,
         )
 
         return (
